@@ -133,15 +133,19 @@ def catalogue():
     A("armodels.armodel_sim", lambda a: armodels.armodel_sim(a["p"], a["obs"], 1.0, 0.5), lambda r: {"p": np.array([0.5, -0.2]), "obs": r.normal(size=n)}, ["p", "obs"])
     A("armodels.armodel_residual", lambda a: armodels.armodel_residual(a["p"], a["obs"], 1.0, 0.5), lambda r: {"p": np.array([0.5, -0.2]), "obs": r.normal(size=n)}, ["p", "obs"])
     A("armodels.yule_walker", lambda a: armodels.yule_walker(a["acf"]), lambda r: {"acf": np.array([1.0, 0.6, 0.3])}, ["acf"])
-    # ---- transforms
+    # ---- transforms: ONE instance per class lives in the shared arguments; it is parameterised by attribute after
+    # construction and then asked for backward, forward, jacobian (round 0) and again (round 1): the same call with the
+    # same parameter values must not depend on which method was called before
     for nm, kw in (("Identity", {}), ("Logit", {}), ("Log", {"nu": 0.1}), ("BoxCox2", {"nu": 0.1, "lam": 0.3}), ("BoxCox1lam", {"nu": 0.1, "lam": 0.3}),
                    ("BoxCox1nu", {"nu": 0.1, "lam": 0.3}), ("BoxCox2sym", {"nu": 0.1, "lam": 0.3}), ("YeoJohnson", {"lam": 0.4}),
                    ("Reciprocal", {"nu": 0.5}), ("Sinh", {"scale": 0.3}), ("LogSinh", {"xmax": 2.0}), ("Manly", {"xmax": 2.0, "lam": 0.5})):
-        for meth in ("forward", "backward", "jacobian"):
-            def f(a, nm=nm, kw=kw, meth=meth):
-                t = transform.get_transform(nm, **kw)
-                return getattr(t, meth)(a["x"])
-            A("transform.%s.%s" % (nm, meth), f, lambda r: {"x": r.uniform(0.05, 0.9, n)}, ["x"])
+        def tbuild(r, nm=nm, kw=kw):
+            t = getattr(transform, nm)()
+            for k, v in kw.items():
+                t[k] = v
+            return {"x": r.uniform(0.05, 0.9, n), "y": -r.uniform(0.05, 0.9, n) if nm == "Reciprocal" else r.uniform(-0.5, 0.5, n), "t": t}
+        for meth, arg in (("backward", "y"), ("forward", "x"), ("jacobian", "x")):
+            A("transform.%s.%s" % (nm, meth), lambda a, meth=meth, arg=arg: getattr(a["t"], meth)(a[arg]), tbuild, [arg, "t"])
     A("transform.Softmax.forward", lambda a: transform.Softmax().forward(a["x"]), lambda r: {"x": r.uniform(0.01, 0.3, (8, 3))}, ["x"])
     A("transform.Softmax.jacobian", lambda a: transform.Softmax().jacobian(a["x"]), lambda r: {"x": r.uniform(0.01, 0.3, (8, 3))}, ["x"])
     A("transform.backward_censored", lambda a: transform.get_transform("Log", nu=0.1).backward_censored(a["x"], 0.2), lambda r: {"x": r.normal(size=n)}, ["x"])
